@@ -370,7 +370,16 @@ def prove(run, prop, targets=None, gen_only=None):
         # independent re-check of the compiled property file and everything it depends on, with the axiom summary
         rc, out = sh('coqchk -o -silent -Q . WV WV.props.%s' % prop, timeout=2400, cwd=COQ)
         summary = out[out.find('CONTEXT SUMMARY'):] if 'CONTEXT SUMMARY' in out else out[-1500:]
-        clean = (rc == 0 and '* Axioms: <none>' in summary and 'type-in-type: <none>' in summary
+        m = re.search(r'\* Axioms:(.*?)\n\s*\n?\* Constants', summary, re.S)
+        axioms = [a.strip() for a in (m.group(1).split() if m else ['?'])]
+        axioms = [a for a in axioms if a != '<none>']
+        # the standard library's primitive 63-bit integers (used to pack byte strings in some judges) are declared
+        # there as primitives with specification axioms: allowed, and named in the evidence
+        foreign = [a for a in axioms if not a.startswith('Coq.Numbers.Cyclic.Int63.')]
+        if axioms:
+            run.trusted.append('coqchk -o lists %d standard-library declarations of primitive integers '
+                               '(Coq.Numbers.Cyclic.Int63.*) among the loaded libraries of props/%s' % (len(axioms), prop))
+        clean = (rc == 0 and not foreign and 'type-in-type: <none>' in summary
                  and 'unsafe (co)fixpoints: <none>' in summary and 'positivity is assumed: <none>' in summary)
         run.oblige('coqchk:props/%s' % prop, clean, summary[-1500:])
     return ok
